@@ -3,6 +3,7 @@ package tscommon
 import (
 	"fmt"
 	"sort"
+	"strconv"
 	"strings"
 
 	"google.golang.org/protobuf/compiler/protogen"
@@ -337,7 +338,7 @@ func GenerateEnumType(p Printer, enum *protogen.Enum) {
 		// Check for custom enum_value annotation
 		customValue := annotations.GetEnumValueMapping(v)
 		if customValue != "" {
-			parts = append(parts, fmt.Sprintf(`"%s"`, customValue))
+			parts = append(parts, strconv.Quote(customValue))
 		} else {
 			parts = append(parts, fmt.Sprintf(`"%s"`, string(v.Desc.Name())))
 		}
@@ -392,7 +393,7 @@ func GenerateOneofDiscriminatedUnionType(p Printer, msgName string, info *annota
 		switch {
 		case info.Flatten && variant.IsMessage:
 			// Flattened: { discriminator: "value", ...variant fields }
-			branch = fmt.Sprintf("{ %s: \"%s\"", info.Discriminator, variant.DiscriminatorVal)
+			branch = fmt.Sprintf("{ %s: %s", info.Discriminator, strconv.Quote(variant.DiscriminatorVal))
 			var sb strings.Builder
 			for _, childField := range variant.Field.Message.Fields {
 				jsonName := childField.Desc.JSONName()
@@ -406,9 +407,9 @@ func GenerateOneofDiscriminatedUnionType(p Printer, msgName string, info *annota
 			fieldJSONName := variant.Field.Desc.JSONName()
 			msgType := string(variant.Field.Message.Desc.Name())
 			branch = fmt.Sprintf(
-				"{ %s: \"%s\"; %s?: %s }",
+				"{ %s: %s; %s?: %s }",
 				info.Discriminator,
-				variant.DiscriminatorVal,
+				strconv.Quote(variant.DiscriminatorVal),
 				fieldJSONName,
 				msgType,
 			)
@@ -417,9 +418,9 @@ func GenerateOneofDiscriminatedUnionType(p Printer, msgName string, info *annota
 			fieldJSONName := variant.Field.Desc.JSONName()
 			tsType := TSScalarTypeForField(variant.Field)
 			branch = fmt.Sprintf(
-				"{ %s: \"%s\"; %s?: %s }",
+				"{ %s: %s; %s?: %s }",
 				info.Discriminator,
-				variant.DiscriminatorVal,
+				strconv.Quote(variant.DiscriminatorVal),
 				fieldJSONName,
 				tsType,
 			)
